@@ -1,5 +1,5 @@
 (* MappingP.v — proofs about the model of the CCI mapping generator (property C16). *)
-From Coq Require Import String Ascii List Lia Bool Arith Permutation.
+From Coq Require Import String Ascii List Lia Bool Arith Permutation Sorted.
 From SFV Require Import Base Mapping.
 From SFV.P Require Import BaseP.
 Import ListNotations.
@@ -1148,4 +1148,944 @@ Proof.
     + right. destruct rt as [c|]; [|discriminate]. cbn [option_eqb] in E. apply String.eqb_eq in E.
       subst. left. reflexivity.
     + left. unfold plain_of. apply filter_In. split; [assumption|]. rewrite Hr, E. reflexivity.
+Qed.
+
+(* ================================================================== add_after_statements *)
+Fixpoint first_pos (so : string) (ms : list (string * mstep)) : option nat :=
+  match ms with
+  | [] => None
+  | (_, m) :: r => if String.eqb (m_sf_object m) so then Some 0 else option_map S (first_pos so r)
+  end.
+
+Fixpoint last_name (so : string) (ms : list (string * mstep)) : option string :=
+  match ms with
+  | [] => None
+  | (n, m) :: r => match last_name so r with
+                   | Some x => Some x
+                   | None => if String.eqb (m_sf_object m) so then Some n else None
+                   end
+  end.
+
+Lemma last_first_None so ms : last_name so ms = None <-> first_pos so ms = None.
+Proof.
+  induction ms as [|[n m] r IH]; cbn [last_name first_pos]; [tauto|].
+  destruct (String.eqb (m_sf_object m) so).
+  - destruct (last_name so r); split; discriminate.
+  - destruct (last_name so r), (first_pos so r); cbn [option_map]; split; intros H;
+      try discriminate; try reflexivity.
+    + apply IH in H. discriminate.
+    + destruct IH as [IH1 _]. specialize (IH1 eq_refl). discriminate.
+Qed.
+
+Definition fi_of (o : option (nat * string)) (dflt : nat) : nat :=
+  match o with Some (fi, _) => fi | None => dflt end.
+
+Lemma index_by_sobject_spec so : forall ms idx acc,
+  assoc_get so (index_by_sobject idx ms acc) =
+  match last_name so ms with
+  | None => assoc_get so acc
+  | Some ln => Some (fi_of (assoc_get so acc)
+                           (idx + match first_pos so ms with Some p => p | None => 0 end), ln)
+  end.
+Proof.
+  induction ms as [|[n m] r IH]; intros idx acc; cbn [index_by_sobject last_name first_pos]; [reflexivity|].
+  rewrite IH. clear IH.
+  assert (Hacc : assoc_get so (match assoc_get (m_sf_object m) acc with
+                               | Some (fi, _) => dict_set (m_sf_object m) (fi, n) acc
+                               | None => dict_set (m_sf_object m) (idx, n) acc
+                               end) =
+                 if String.eqb so (m_sf_object m)
+                 then Some (fi_of (assoc_get so acc) idx, n) else assoc_get so acc).
+  { destruct (assoc_get (m_sf_object m) acc) as [[fi ln0]|] eqn:Ea; rewrite assoc_get_dict_set;
+      destruct (String.eqb so (m_sf_object m)) eqn:E; try reflexivity;
+      apply String.eqb_eq in E; subst so; rewrite Ea; reflexivity. }
+  rewrite Hacc. rewrite (String.eqb_sym (m_sf_object m) so).
+  destruct (String.eqb so (m_sf_object m)) eqn:E.
+  - destruct (last_name so r) as [ln|]; cbn [fi_of]; rewrite Nat.add_0_r; reflexivity.
+  - destruct (last_name so r) as [ln|] eqn:El; [|reflexivity].
+    destruct (first_pos so r) as [p|] eqn:Ep.
+    + cbn [option_map]. f_equal. f_equal. f_equal. lia.
+    + apply last_first_None in Ep. congruence.
+Qed.
+
+Lemma after_lookup_same index idx l l' :
+  after_lookup index idx l = Ok l' -> lk_field l' = lk_field l /\ lk_table l' = lk_table l.
+Proof.
+  unfold after_lookup. destruct (String.eqb (lk_table l) "PersonContact").
+  - intros H. inversion H. auto.
+  - destruct (assoc_get (lk_table l) index) as [[fi ln]|]; [|discriminate].
+    destruct (Nat.leb idx fi); [destruct (lk_after l)|]; intros H; inversion H; auto.
+Qed.
+
+Definition same_lookups (a b : list lookup) : Prop :=
+  Forall2 (fun l l' => lk_field l' = lk_field l /\ lk_table l' = lk_table l) a b.
+
+Definition same_but_after (a b : string * mstep) : Prop :=
+  fst b = fst a /\ m_sf_object (snd b) = m_sf_object (snd a) /\ m_table (snd b) = m_table (snd a) /\
+  m_fields (snd b) = m_fields (snd a) /\ m_extras (snd b) = m_extras (snd a) /\
+  m_action (snd b) = m_action (snd a) /\ m_update_key (snd b) = m_update_key (snd a) /\
+  m_filters (snd b) = m_filters (snd a) /\ same_lookups (m_lookups (snd a)) (m_lookups (snd b)).
+
+Lemma mapM_after_same index idx ls : forall ls',
+  mapM (after_lookup index idx) ls = Ok ls' -> same_lookups ls ls'.
+Proof.
+  intros ls' H. apply mapM_Forall2 in H. unfold same_lookups.
+  induction H as [|x y r r' Hxy Hr IH]; constructor; [|assumption].
+  apply (after_lookup_same _ _ _ _ Hxy).
+Qed.
+
+Lemma add_after_from_same index : forall ms idx ms',
+  add_after_from index idx ms = Ok ms' -> Forall2 same_but_after ms ms'.
+Proof.
+  induction ms as [|[n m] r IH]; intros idx ms' H; cbn [add_after_from] in H.
+  - inversion H. constructor.
+  - destruct (mapM (after_lookup index idx) (m_lookups m)) as [lks|e] eqn:E; cbn [bind] in H; [|discriminate].
+    destruct (add_after_from index (S idx) r) as [rest|e] eqn:Er; cbn [bind] in H; [|discriminate].
+    inversion H; subst. constructor; [|apply (IH _ _ Er)].
+    unfold same_but_after. cbn. splits; try reflexivity. apply (mapM_after_same _ _ _ _ E).
+Qed.
+
+Lemma same_first_pos so ms ms' : Forall2 same_but_after ms ms' -> first_pos so ms' = first_pos so ms.
+Proof.
+  intros H. induction H as [|[n m] [n' m'] r r' Hxy Hr IH]; cbn [first_pos]; [reflexivity|].
+  destruct Hxy as (_ & Hso & _). cbn [snd] in Hso. rewrite Hso, IH. reflexivity.
+Qed.
+
+Lemma same_last_name so ms ms' : Forall2 same_but_after ms ms' -> last_name so ms' = last_name so ms.
+Proof.
+  intros H. induction H as [|[n m] [n' m'] r r' Hxy Hr IH]; cbn [last_name]; [reflexivity|].
+  destruct Hxy as (Hn & Hso & _). cbn [fst snd] in Hn, Hso. rewrite Hso, IH, Hn. reflexivity.
+Qed.
+
+(* the step at offset [length pre] was produced with index idx + length pre *)
+Lemma add_after_from_at index : forall ms idx ms' pre' name m' post',
+  add_after_from index idx ms = Ok ms' -> ms' = pre' ++ (name, m') :: post' ->
+  exists m, In (name, m) ms /\
+            mapM (after_lookup index (idx + length pre')) (m_lookups m) = Ok (m_lookups m').
+Proof.
+  induction ms as [|[n m] r IH]; intros idx ms' pre' name m' post' H Heq; cbn [add_after_from] in H.
+  - inversion H; subst. destruct pre'; discriminate.
+  - destruct (mapM (after_lookup index idx) (m_lookups m)) as [lks|e] eqn:E; cbn [bind] in H; [|discriminate].
+    destruct (add_after_from index (S idx) r) as [rest|e] eqn:Er; cbn [bind] in H; [|discriminate].
+    inversion H as [Hms]. clear H. rewrite <- Hms in Heq. clear Hms.
+    destruct pre' as [|p pre'']; cbn [app] in Heq.
+    + inversion Heq; subst. exists m. split; [left; reflexivity|]. cbn [length m_lookups].
+      rewrite Nat.add_0_r. assumption.
+    + inversion Heq; subst. destruct (IH _ _ _ _ _ _ Er eq_refl) as [m0 [H1 H2]].
+      exists m0. split; [right; assumption|]. cbn [length]. rewrite Nat.add_succ_r. assumption.
+Qed.
+
+Lemma mapM_In {A B} (f : A -> result B) l l' y :
+  mapM f l = Ok l' -> In y l' -> exists x, In x l /\ f x = Ok y.
+Proof.
+  intros H. apply mapM_Forall2 in H. induction H as [|a b r r' Hab Hr IH]; intros Hy; [destruct Hy|].
+  destruct Hy as [Hy|Hy]; [subst; exists a; split; [left; reflexivity|assumption]|].
+  destruct (IH Hy) as [x [H1 H2]]. exists x. split; [right; assumption|assumption].
+Qed.
+
+(* the rule that add_after_statements establishes, for every lookup of every step *)
+Theorem after_rule_general ms ms' pre name m post l :
+  (forall n0 m0 l0, In (n0, m0) ms -> In l0 (m_lookups m0) -> lk_after l0 = None) ->
+  add_after_statements ms = Ok ms' -> ms' = pre ++ (name, m) :: post ->
+  In l (m_lookups m) -> lk_table l <> "PersonContact" ->
+  exists fi ln, first_pos (lk_table l) ms' = Some fi /\ last_name (lk_table l) ms' = Some ln /\
+                (fi < length pre \/ lk_after l = Some ln).
+Proof.
+  unfold add_after_statements. intros Hnone H Heq Hl Hpc.
+  pose proof (add_after_from_same _ _ _ _ H) as Hsame.
+  destruct (add_after_from_at _ _ _ _ _ _ _ _ H Heq) as [m0 [Hm0 Hm]]. cbn [Nat.add] in Hm.
+  destruct (mapM_In _ _ _ _ Hm Hl) as [l0 [Hl0in Hl0]].
+  pose proof (Hnone _ _ _ Hm0 Hl0in) as Hno.
+  rewrite (same_first_pos _ _ _ Hsame), (same_last_name _ _ _ Hsame).
+  pose proof (after_lookup_same _ _ _ _ Hl0) as [_ Ht]. rewrite Ht.
+  unfold after_lookup in Hl0.
+  destruct (String.eqb (lk_table l0) "PersonContact") eqn:Epc.
+  { apply String.eqb_eq in Epc. congruence. }
+  rewrite index_by_sobject_spec in Hl0. cbn [assoc_get fi_of Nat.add] in Hl0.
+  destruct (last_name (lk_table l0) ms) as [ln|] eqn:El; [|discriminate].
+  destruct (first_pos (lk_table l0) ms) as [p|] eqn:Ep;
+    [|apply last_first_None in Ep; congruence].
+  exists p, ln. splits; [reflexivity|reflexivity|].
+  destruct (Nat.leb (length pre) p) eqn:E.
+  - right. rewrite Hno in Hl0. inversion Hl0; subst; cbn [lk_after]. reflexivity.
+  - left. apply Nat.leb_gt in E. assumption.
+Qed.
+
+(* ================================================================== the whole pipeline *)
+Lemma Forall2_compose {A B C} (R1 : A -> B -> Prop) (R2 : B -> C -> Prop) l1 : forall l2 l3,
+  Forall2 R1 l1 l2 -> Forall2 R2 l2 l3 -> Forall2 (fun a c => exists b, R1 a b /\ R2 b c) l1 l3.
+Proof.
+  induction l1 as [|a r IH]; intros l2 l3 H1 H2; inversion H1; subst; inversion H2; subst; constructor.
+  - eauto.
+  - eapply IH; eassumption.
+Qed.
+
+Lemma Forall2_weaken {A B} (R1 R2 : A -> B -> Prop) l1 l2 :
+  (forall a b, R1 a b -> R2 a b) -> Forall2 R1 l1 l2 -> Forall2 R2 l1 l2.
+Proof. intros H F. induction F; constructor; auto. Qed.
+
+Lemma Forall2_In_r {A B} (R : A -> B -> Prop) l1 l2 y :
+  Forall2 R l1 l2 -> In y l2 -> exists x, In x l1 /\ R x y.
+Proof.
+  intros H. induction H as [|a b r r' Hab Hr IH]; intros Hy; [destruct Hy|].
+  destruct Hy as [Hy|Hy]; [subst; exists a; split; [left; reflexivity|assumption]|].
+  destruct (IH Hy) as [x [H1 H2]]. exists x. split; [right; assumption|assumption].
+Qed.
+
+Lemma Forall2_In_l {A B} (R : A -> B -> Prop) l1 l2 x :
+  Forall2 R l1 l2 -> In x l1 -> exists y, In y l2 /\ R x y.
+Proof.
+  intros H. induction H as [|a b r r' Hab Hr IH]; intros Hx; [destruct Hx|].
+  destruct Hx as [Hx|Hx]; [subst; exists b; split; [left; reflexivity|assumption]|].
+  destruct (IH Hx) as [y [H1 H2]]. exists y. split; [right; assumption|assumption].
+Qed.
+
+Lemma Forall2_map_eq {A B C} (R : A -> B -> Prop) (f : A -> C) (g : B -> C) l1 l2 :
+  Forall2 R l1 l2 -> (forall a b, R a b -> f a = g b) -> map f l1 = map g l2.
+Proof.
+  intros H Hfg. induction H as [|a b r r' Hab Hr IH]; cbn [map]; [reflexivity|].
+  rewrite IH, (Hfg _ _ Hab). reflexivity.
+Qed.
+
+Lemma NoDup_map_inj_in {A B} (f : A -> B) l :
+  NoDup l -> (forall x y, In x l -> In y l -> f x = f y -> x = y) -> NoDup (map f l).
+Proof.
+  induction 1 as [|a r Ha Hr IH]; intros Hinj; cbn [map]; constructor.
+  - intros Hin. apply in_map_iff in Hin. destruct Hin as [y [Hy1 Hy2]].
+    assert (y = a) by (apply Hinj; [right; assumption|left; reflexivity|assumption]). subst. contradiction.
+  - apply IH. intros x y Hx Hy. apply Hinj; right; assumption.
+Qed.
+
+Lemma dict_set_In {A} k (v : A) l kv : In kv (dict_set k v l) -> kv = (k, v) \/ In kv l.
+Proof.
+  induction l as [|[k0 v0] r IH]; cbn [dict_set In].
+  - intros [H|[]]; auto.
+  - destruct (String.eqb k k0); cbn [In]; intros [H|H]; auto. destruct (IH H); auto.
+Qed.
+
+Lemma fold_dict_set_In {A} (kvs : list (string * A)) : forall acc kv,
+  In kv (fold_left (fun a nm => dict_set (fst nm) (snd nm) a) kvs acc) -> In kv acc \/ In kv kvs.
+Proof.
+  induction kvs as [|[k v] r IH]; intros acc kv H; cbn [fold_left fst snd] in H; [auto|].
+  destruct (IH _ _ H) as [H1|H1]; [|right; right; assumption].
+  destruct (dict_set_In _ _ _ _ H1) as [H2|H2]; [right; left; auto|auto].
+Qed.
+
+Lemma last_name_In so ms n m : In (n, m) ms -> m_sf_object m = so -> last_name so ms <> None.
+Proof.
+  induction ms as [|[n0 m0] r IH]; cbn [In last_name]; [tauto|].
+  intros [H|H] Hso.
+  - inversion H; subst. rewrite String.eqb_refl. destruct (last_name (m_sf_object m) r); discriminate.
+  - specialize (IH H Hso). destruct (last_name so r); [discriminate|congruence].
+Qed.
+
+Lemma add_after_from_ok index : forall ms idx,
+  (forall n m l, In (n, m) ms -> In l (m_lookups m) ->
+                 lk_table l = "PersonContact" \/ assoc_get (lk_table l) index <> None) ->
+  exists ms', add_after_from index idx ms = Ok ms'.
+Proof.
+  induction ms as [|[n m] r IH]; intros idx H; cbn [add_after_from]; [eexists; reflexivity|].
+  destruct (mapM_ok (after_lookup index idx) (m_lookups m)) as [lks Hl].
+  - intros l Hl. unfold after_lookup. destruct (H n m l (or_introl eq_refl) Hl) as [Hp|Hp].
+    + rewrite Hp, String.eqb_refl. eexists; reflexivity.
+    + destruct (String.eqb (lk_table l) "PersonContact"); [eexists; reflexivity|].
+      destruct (assoc_get (lk_table l) index) as [[fi ln]|]; [|congruence].
+      destruct (Nat.leb idx fi); [destruct (lk_after l)|]; eexists; reflexivity.
+  - rewrite Hl. cbn [bind]. destruct (IH (S idx)) as [rest Hr].
+    + intros n0 m0 l0 H1 H2. apply (H n0 m0 l0); [right; assumption|assumption].
+    + rewrite Hr. cbn [bind]. eexists; reflexivity.
+Qed.
+
+Definition visible_tables (tpls : list ftpl) : list string := map ti_name (infer_tables tpls).
+
+(* a reference (t.f -> to) recorded at run time whose target table is loaded *)
+Definition observed (tpls : list ftpl) (deps : list dep) (t f to : string) : Prop :=
+  In (mkDep t to f) deps /\ (In to (visible_tables tpls) \/ to = "PersonContact").
+
+Lemma visible_tables_In tpls t :
+  In t (visible_tables tpls) <-> exists tp, In tp tpls /\ tp_table tp = t /\ hidden t = false.
+Proof.
+  unfold visible_tables, infer_tables. rewrite in_map_iff. split.
+  - intros [ti [H1 H2]]. apply filter_In in H2. destruct H2 as [H2 H3]. apply negb_true_iff in H3.
+    destruct (all_tables_member _ _ H2) as [[tp [Hp1 Hp2]] _]. exists tp. subst t. auto.
+  - intros [tp [H1 [H2 H3]]].
+    assert (Hn : In t (map ti_name (all_tables tpls))).
+    { unfold all_tables. apply fold_register_names_In. right. eauto. }
+    apply in_map_iff in Hn. destruct Hn as [ti [Ht1 Ht2]]. exists ti. split; [assumption|].
+    apply filter_In. split; [assumption|]. rewrite Ht1, H3. reflexivity.
+Qed.
+
+Lemma remove_pc_names tis : map ti_name (remove_pc_field tis) = map ti_name tis.
+Proof.
+  unfold remove_pc_field. rewrite map_map. apply map_ext. intros ti.
+  destruct (String.eqb (ti_name ti) "Account"); reflexivity.
+Qed.
+
+Section Pipeline.
+Variable tpls : list ftpl.
+Variable deps : list dep.
+Variable decls : list decl.
+
+Let names := visible_tables tpls.
+Let loadable := loadable_deps names deps.
+Let tis' := remove_pc_field (infer_tables tpls).
+Let dmap := map (fun d => (dc_object d, d)) decls.
+
+Lemma loadable_In d : In d loadable <-> In d deps /\ (In (d_to d) names \/ d_to d = "PersonContact").
+Proof.
+  unfold loadable, loadable_deps. rewrite filter_In, orb_true_iff, mem_In, String.eqb_eq. tauto.
+Qed.
+
+Lemma ref_target_observed t f to : ref_target loadable t f = Some to -> observed tpls deps t f to.
+Proof.
+  intros H. apply ref_target_Some in H. apply loadable_In in H. cbn [d_to] in H. exact H.
+Qed.
+
+Lemma ref_target_None_observed t f :
+  ref_target loadable t f = None <-> forall to, ~ observed tpls deps t f to.
+Proof.
+  rewrite ref_target_None. split.
+  - intros H to [H1 H2]. apply (H (mkDep t to f)); [apply loadable_In; cbn [d_to]; auto|cbn; auto].
+  - intros H d Hd [H1 H2]. apply loadable_In in Hd. destruct d as [a b c]. cbn in *. subst.
+    apply (H b). split; tauto.
+Qed.
+
+Lemma mapping_inv ms :
+  mapping_from_recipe tpls deps decls = Ok ms ->
+  exists order steps named,
+    sort_dependencies (remove_pc_deps (inferred_of loadable)) (declared_of decls) names = Ok order /\
+    load_steps tis' order = Ok steps /\
+    mapM (step_body steps loadable dmap) steps = Ok named /\
+    add_after_statements (fold_left (fun acc nm => dict_set (fst nm) (snd nm) acc) named []) = Ok ms.
+Proof.
+  unfold mapping_from_recipe. fold (visible_tables tpls). fold names. fold loadable. fold tis'. fold dmap.
+  destruct (sort_dependencies _ _ names) as [order|e] eqn:E1; cbn [bind]; [|discriminate].
+  destruct (load_steps tis' order) as [steps|e] eqn:E2; cbn [bind]; [|discriminate].
+  unfold mappings_from_load_steps.
+  destruct (mapM (step_body steps loadable dmap) steps) as [named|e] eqn:E3; cbn [bind]; [|discriminate].
+  intros H. exists order, steps, named. auto.
+Qed.
+
+Hypothesis Hnospace : forall tp, In tp tpls -> has_space (tp_table tp) = false.
+
+Lemma steps_same_table steps order x y :
+  load_steps tis' order = Ok steps -> In x steps -> In y steps ->
+  ls_table x = ls_table y -> ls_key x = ls_key y -> x = y.
+Proof.
+  intros Hs Hx Hy Ht Hk. destruct (load_steps_spec _ _ _ Hs) as [_ Hin].
+  apply Hin in Hx. apply Hin in Hy.
+  destruct Hx as [ti1 [k1 [A1 [A2 A3]]]]. destruct Hy as [ti2 [k2 [B1 [B2 B3]]]]. subst x y.
+  cbn [ls_table ls_key] in *. destruct (infer_tables_spec tpls) as [Hnd _]. fold tis' in Hnd.
+  pose proof (find_ti_In _ _ Hnd A1) as F1. pose proof (find_ti_In _ _ Hnd B1) as F2.
+  rewrite Ht in F1. rewrite F1 in F2. inversion F2. subst. reflexivity.
+Qed.
+
+Lemma steps_no_space steps order x :
+  load_steps tis' order = Ok steps -> In x steps -> has_space (ls_table x) = false.
+Proof.
+  intros Hs Hx. destruct (load_steps_spec _ _ _ Hs) as [_ Hin]. apply Hin in Hx.
+  destruct Hx as [ti [k [A1 [A2 A3]]]]. subst x. cbn [ls_table].
+  destruct (infer_tables_spec tpls) as [_ [Hti _]]. fold tis' in Hti.
+  destruct (Hti ti A1) as (_ & [tp [Hp1 Hp2]] & _). rewrite <- Hp2. apply Hnospace. assumption.
+Qed.
+
+Definition step_rel (s : lstep) (nm : string * mstep) : Prop :=
+  fst nm = step_name (ls_table s) (ls_key s) /\
+  m_table (snd nm) = ls_table s /\ m_update_key (snd nm) = ls_key s /\
+  m_sf_object (snd nm) = (if String.eqb (ls_table s) "PersonContact" then "Contact" else ls_table s) /\
+  same_lookups (lookups_of loadable (ls_table s) (ls_fields s)) (m_lookups (snd nm)) /\
+  exists rt, find_rt (ls_fields s) = Ok rt /\
+             m_fields (snd nm) = fields_of_step loadable (ls_table s) rt (ls_fields s).
+
+Lemma named_is_dict steps order named :
+  load_steps tis' order = Ok steps ->
+  mapM (step_body steps loadable dmap) steps = Ok named ->
+  fold_left (fun acc nm => dict_set (fst nm) (snd nm) acc) named [] = named.
+Proof.
+  intros Hs Hn. apply fold_dict_set_nodup. cbn [app].
+  apply mapM_Forall2 in Hn.
+  rewrite <- (Forall2_map_eq _ (fun s => step_name (ls_table s) (ls_key s)) fst _ _ Hn).
+  - apply NoDup_map_inj_in; [apply (load_steps_spec _ _ _ Hs)|].
+    intros x y Hx Hy He.
+    destruct (step_name_inj _ _ _ _ (steps_no_space _ _ _ Hs Hx) (steps_no_space _ _ _ Hs Hy) He).
+    eapply steps_same_table; eassumption.
+  - intros s [n m] H. apply step_body_spec in H. cbn [fst]. symmetry. tauto.
+Qed.
+
+Lemma pipeline_rel ms :
+  mapping_from_recipe tpls deps decls = Ok ms ->
+  exists order steps,
+    sort_dependencies (remove_pc_deps (inferred_of loadable)) (declared_of decls) names = Ok order /\
+    load_steps tis' order = Ok steps /\ Forall2 step_rel steps ms.
+Proof.
+  intros H. destruct (mapping_inv _ H) as (order & steps & named & H1 & H2 & H3 & H4).
+  exists order, steps. split; [assumption|]. split; [assumption|].
+  rewrite (named_is_dict _ _ _ H2 H3) in H4. unfold add_after_statements in H4.
+  apply add_after_from_same in H4. apply mapM_Forall2 in H3.
+  pose proof (Forall2_compose _ _ _ _ _ H3 H4) as Hc.
+  eapply Forall2_weaken; [|exact Hc]. intros s [n m] [[n0 m0] [Hb Hsame]].
+  apply step_body_spec in Hb. destruct Hb as (B1 & B2 & B3 & B4 & B5 & rt & B6 & B7).
+  destruct Hsame as (S1 & S2 & S3 & S4 & _ & _ & S7 & _ & S9). cbn [fst snd] in *.
+  unfold step_rel. cbn [fst snd]. splits; try congruence; try exact S9; try (rewrite B5 in S9; exact S9).
+  exists rt. split; congruence.
+Qed.
+
+End Pipeline.
+
+(* ================================================================== the theorems about the mapping *)
+Definition step_key (nm : string * mstep) : string * option string :=
+  (m_table (snd nm), m_update_key (snd nm)).
+
+Lemma same_lookups_fields a b : same_lookups a b -> map lk_field b = map lk_field a.
+Proof. intros H. induction H as [|x y r r' [H1 H2] Hr IH]; cbn [map]; congruence. Qed.
+
+Lemma same_lookups_In a b l' : same_lookups a b -> In l' b ->
+  exists l, In l a /\ lk_field l' = lk_field l /\ lk_table l' = lk_table l.
+Proof. intros H Hl. destruct (Forall2_In_r _ _ _ _ H Hl) as [l [H1 H2]]. eauto. Qed.
+
+Theorem steps_complete tpls deps decls ms :
+  (forall tp, In tp tpls -> has_space (tp_table tp) = false) ->
+  mapping_from_recipe tpls deps decls = Ok ms ->
+  NoDup (map step_key ms) /\
+  (forall t k, In (t, k) (map step_key ms) <->
+               exists tp, In tp tpls /\ hidden (tp_table tp) = false /\
+                          tp_table tp = t /\ norm_key (tp_key tp) = k) /\
+  forall name m, In (name, m) ms ->
+    name = step_name (m_table m) (m_update_key m) /\
+    m_sf_object m = (if String.eqb (m_table m) "PersonContact" then "Contact" else m_table m) /\
+    NoDup (map lk_field (m_lookups m)) /\ NoDup (map snd (m_fields m)) /\
+    (forall l, In l (m_lookups m) ->
+       vfield tpls (m_table m) (lk_field l) /\
+       observed tpls deps (m_table m) (lk_field l) (lk_table l)) /\
+    (forall f, In f (map snd (m_fields m)) ->
+       vfield tpls (m_table m) f /\
+       ((forall to, ~ observed tpls deps (m_table m) f to) \/ is_rt f = true)) /\
+    (forall f, vfield tpls (m_table m) f -> (exists to, observed tpls deps (m_table m) f to) ->
+               In f (map lk_field (m_lookups m))) /\
+    (forall f, vfield tpls (m_table m) f -> (forall to, ~ observed tpls deps (m_table m) f to) ->
+               In f (map snd (m_fields m))).
+Proof.
+  intros Hns H. destruct (pipeline_rel _ _ _ Hns _ H) as (order & steps & Hsort & Hs & Hrel).
+  destruct (load_steps_spec _ _ _ Hs) as [Hnd Hin].
+  destruct (infer_tables_spec tpls) as (Tnd & Tti & Tcov).
+  assert (Hkeys : map step_key ms = map (fun s => (ls_table s, ls_key s)) steps).
+  { symmetry. apply (Forall2_map_eq _ _ _ _ _ Hrel). intros s [n m] R. unfold step_key, step_rel in *.
+    cbn [fst snd] in *. destruct R as (_ & R2 & R3 & _). congruence. }
+  splits.
+  - rewrite Hkeys. apply NoDup_map_inj_in; [assumption|]. intros x y Hx Hy He. inversion He.
+    eapply steps_same_table; eassumption.
+  - intros t k. rewrite Hkeys, in_map_iff. split.
+    + intros [s [He Hsin]]. inversion He; subst. apply Hin in Hsin.
+      destruct Hsin as [ti [k [A1 [A2 A3]]]]. subst s. cbn [ls_table ls_key].
+      destruct (Tti ti A1) as (V1 & _ & _ & _ & V5). apply V5 in A2.
+      destruct A2 as [tp [P1 [P2 P3]]]. exists tp. rewrite P2. auto.
+    + intros [tp [P1 [P2 [P3 P4]]]]. destruct (Tcov tp P1 P2) as [ti [A1 A2]].
+      exists (mkLs (ti_name ti) k (ti_fields ti)). cbn [ls_table ls_key]. split; [congruence|].
+      apply Hin. exists ti, k. splits; [assumption| |reflexivity].
+      destruct (Tti ti A1) as (_ & _ & _ & _ & V5). apply V5. exists tp. rewrite A2. auto.
+  - intros name m Hm. destruct (Forall2_In_r _ _ _ _ Hrel Hm) as [s [Hsin R]].
+    unfold step_rel in R. cbn [fst snd] in R. destruct R as (R1 & R2 & R3 & R4 & R5 & rt & R6 & R7).
+    apply Hin in Hsin. destruct Hsin as [ti [k [A1 [A2 A3]]]]. subst s. cbn [ls_table ls_key ls_fields] in *.
+    destruct (Tti ti A1) as (V1 & _ & V3 & V4 & _).
+    destruct (fields_of_step_facts (loadable_deps (visible_tables tpls) deps) (ti_name ti) rt
+                (ti_fields ti) V3 R6) as (F1 & F2 & F3).
+    rewrite R2, R3. splits.
+    + assumption.
+    + assumption.
+    + rewrite (same_lookups_fields _ _ R5), lookups_of_fields. apply filter_NoDup. assumption.
+    + rewrite R7. assumption.
+    + intros l Hl. destruct (same_lookups_In _ _ _ R5 Hl) as [l0 [L1 [L2 L3]]].
+      apply lookups_of_In in L1. destruct L1 as [L1 [L4 _]]. rewrite L2, L3. split.
+      * apply V4. assumption.
+      * apply (ref_target_observed _ _ _ _ _ L4).
+    + intros f Hf. rewrite R7 in Hf. destruct (F2 f Hf) as [G1 G2]. split; [apply V4; assumption|].
+      destruct G2 as [G2|G2]; [left; apply (ref_target_None_observed tpls deps); assumption|auto].
+    + intros f Hf [to Hobs]. rewrite (same_lookups_fields _ _ R5), lookups_of_fields.
+      apply filter_In. split; [apply V4; assumption|].
+      destruct (ref_target (loadable_deps (visible_tables tpls) deps) (ti_name ti) f) eqn:E; [reflexivity|].
+      pose proof (proj1 (ref_target_None_observed tpls deps _ _) E) as E'. exfalso. apply (E' to). assumption.
+    + intros f Hf Hno. rewrite R7. apply F3; [apply V4; assumption|].
+      apply (ref_target_None_observed tpls deps). assumption.
+Qed.
+
+(* the target table named by a lookup is the one of the last reference recorded for the field *)
+Theorem lookup_target_last tpls deps decls ms name m l :
+  (forall tp, In tp tpls -> has_space (tp_table tp) = false) ->
+  mapping_from_recipe tpls deps decls = Ok ms -> In (name, m) ms -> In l (m_lookups m) ->
+  ref_target (loadable_deps (visible_tables tpls) deps) (m_table m) (lk_field l) = Some (lk_table l).
+Proof.
+  intros Hns H Hm Hl. destruct (pipeline_rel _ _ _ Hns _ H) as (order & steps & Hsort & Hs & Hrel).
+  destruct (Forall2_In_r _ _ _ _ Hrel Hm) as [s [Hsin R]].
+  unfold step_rel in R. cbn [fst snd] in R. destruct R as (_ & R2 & _ & _ & R5 & _).
+  destruct (same_lookups_In _ _ _ R5 Hl) as [l0 [L1 [L2 L3]]].
+  apply lookups_of_In in L1. destruct L1 as [_ [L4 _]]. rewrite R2, L2, L3. assumption.
+Qed.
+
+Theorem after_rule tpls deps decls ms pre name m post l :
+  mapping_from_recipe tpls deps decls = Ok ms -> ms = pre ++ (name, m) :: post ->
+  In l (m_lookups m) -> lk_table l <> "PersonContact" ->
+  exists fi ln, first_pos (lk_table l) ms = Some fi /\ last_name (lk_table l) ms = Some ln /\
+                (fi < length pre \/ lk_after l = Some ln).
+Proof.
+  intros H Heq Hl Hpc. destruct (mapping_inv _ _ _ _ H) as (order & steps & named & H1 & H2 & H3 & H4).
+  eapply after_rule_general; try eassumption.
+  intros n0 m0 l0 Hn0 Hl0. apply fold_dict_set_In in Hn0. destruct Hn0 as [[]|Hn0].
+  destruct (mapM_In _ _ _ _ H3 Hn0) as [s [_ Hb]]. apply step_body_spec in Hb.
+  destruct Hb as (_ & _ & _ & _ & B5 & _). rewrite B5 in Hl0. apply lookups_of_In in Hl0. tauto.
+Qed.
+
+Lemma unique_first_last so pre n m post :
+  m_sf_object m = so ->
+  (forall nm, In nm pre \/ In nm post -> m_sf_object (snd nm) <> so) ->
+  first_pos so (pre ++ (n, m) :: post) = Some (length pre) /\
+  last_name so (pre ++ (n, m) :: post) = Some n.
+Proof.
+  intros Hso Hothers.
+  assert (Hpost : last_name so post = None).
+  { assert (forall l, (forall nm, In nm l -> m_sf_object (snd nm) <> so) -> last_name so l = None) as G.
+    { induction l as [|[n0 m0] r IH]; intros Hl; cbn [last_name]; [reflexivity|].
+      rewrite IH by (intros; apply Hl; right; assumption).
+      destruct (String.eqb (m_sf_object m0) so) eqn:E; [|reflexivity].
+      apply String.eqb_eq in E. exfalso. apply (Hl (n0, m0)); [left; reflexivity|assumption]. }
+    apply G. intros nm Hnm. apply Hothers. auto. }
+  induction pre as [|[n0 m0] r IH]; cbn [app first_pos last_name length].
+  - rewrite Hso, String.eqb_refl, Hpost. auto.
+  - destruct IH as [IH1 IH2]; [intros nm [Hnm|Hnm]; apply Hothers; [left; right; assumption|auto]|].
+    rewrite IH1, IH2. cbn [option_map].
+    destruct (String.eqb (m_sf_object m0) so) eqn:E; [|auto].
+    apply String.eqb_eq in E. exfalso. apply (Hothers (n0, m0)); [left; left; reflexivity|assumption].
+Qed.
+
+(* the property's after-rule: the target is loaded by a single step *)
+Theorem after_rule_single tpls deps decls ms pre name m post l prej namej mj postj :
+  mapping_from_recipe tpls deps decls = Ok ms -> ms = pre ++ (name, m) :: post ->
+  In l (m_lookups m) -> lk_table l <> "PersonContact" ->
+  ms = prej ++ (namej, mj) :: postj -> m_sf_object mj = lk_table l ->
+  (forall nm, In nm prej \/ In nm postj -> m_sf_object (snd nm) <> lk_table l) ->
+  length prej < length pre \/ lk_after l = Some namej.
+Proof.
+  intros H Heq Hl Hpc Heqj Hso Hothers.
+  destruct (after_rule _ _ _ _ _ _ _ _ _ H Heq Hl Hpc) as (fi & ln & F1 & F2 & F3).
+  destruct (unique_first_last _ prej namej mj postj Hso Hothers) as [U1 U2].
+  rewrite Heqj in F1, F2. rewrite U1 in F1. rewrite U2 in F2. inversion F1; inversion F2; subst fi ln.
+  assumption.
+Qed.
+
+Theorem mapping_history_independent tpls decls evs :
+  mapping_from_recipe tpls (run_events evs []) decls =
+  mapping_from_recipe tpls (run_events (filter is_obs evs) []) decls.
+Proof. rewrite (deps_persist evs [] (NoDup_nil _)). reflexivity. Qed.
+
+Lemma NoDup_all_equal_length {A} (l : list A) :
+  NoDup l -> (forall x y, In x l -> In y l -> x = y) -> length l <= 1.
+Proof.
+  intros Hnd Heq. destruct l as [|a [|b r]]; cbn [length]; try lia.
+  exfalso. inversion Hnd as [|? ? Ha _]; subst. apply Ha. left.
+  apply Heq; [right; left; reflexivity|left; reflexivity].
+Qed.
+
+Theorem mapping_total tpls deps decls :
+  (forall tp, In tp tpls -> has_space (tp_table tp) = false) ->
+  (forall t f1 f2, vfield tpls t f1 -> vfield tpls t f2 -> is_rt f1 = true -> is_rt f2 = true -> f1 = f2) ->
+  exists ms, mapping_from_recipe tpls deps decls = Ok ms.
+Proof.
+  intros Hns Hrt. unfold mapping_from_recipe. fold (visible_tables tpls).
+  set (names := visible_tables tpls). set (loadable := loadable_deps names deps).
+  set (tis' := remove_pc_field (infer_tables tpls)).
+  set (dmap := map (fun d => (dc_object d, d)) decls).
+  destruct (sort_terminates (remove_pc_deps (inferred_of loadable)) (declared_of decls) names) as [order Ho].
+  rewrite Ho. cbn [bind].
+  destruct (infer_tables_spec tpls) as (Tnd & Tti & Tcov). fold tis' in Tnd, Tti, Tcov.
+  destruct (load_steps_ok tis' order) as [steps Hs].
+  { intros ti Hti. apply (sort_covers _ _ _ _ Ho). unfold names, visible_tables.
+    rewrite <- remove_pc_names. apply in_map. assumption. }
+  rewrite Hs. cbn [bind]. unfold mappings_from_load_steps.
+  destruct (load_steps_spec _ _ _ Hs) as [Hnd Hin].
+  destruct (mapM_ok (step_body steps loadable dmap) steps) as [named Hn].
+  { intros s Hsin. apply step_body_ok. apply Hin in Hsin. destruct Hsin as [ti [k [A1 [A2 A3]]]].
+    subst s. cbn [ls_fields]. destruct (Tti ti A1) as (_ & _ & V3 & V4 & _).
+    assert (Hlen : length (filter is_rt (ti_fields ti)) <= 1).
+    { apply NoDup_all_equal_length; [apply filter_NoDup; assumption|].
+      intros x y Hx Hy. apply filter_In in Hx, Hy. destruct Hx as [X1 X2], Hy as [Y1 Y2].
+      apply (Hrt (ti_name ti)); [apply V4|apply V4| |]; assumption. }
+    unfold find_rt. destruct (filter is_rt (ti_fields ti)) as [|a [|b r]]; cbn [length] in Hlen;
+      [eexists; reflexivity|eexists; reflexivity|lia]. }
+  rewrite Hn. cbn [bind]. rewrite (named_is_dict tpls deps decls Hns _ _ _ Hs Hn).
+  unfold add_after_statements. apply add_after_from_ok.
+  intros n m l Hnm Hl.
+  destruct (mapM_In _ _ _ _ Hn Hnm) as [s [Hsin Hb]]. apply step_body_spec in Hb.
+  destruct Hb as (_ & _ & _ & _ & B5 & _). rewrite B5 in Hl. apply lookups_of_In in Hl.
+  destruct Hl as [_ [L2 _]]. apply ref_target_Some in L2. apply (loadable_In tpls deps) in L2.
+  cbn [d_to] in L2. destruct L2 as [_ [L2|L2]]; [|auto].
+  destruct (String.eqb (lk_table l) "PersonContact") eqn:Epc; [left; apply String.eqb_eq; assumption|].
+  right. rewrite index_by_sobject_spec. cbn [assoc_get].
+  (* some step loads the target table *)
+  unfold visible_tables in L2. rewrite <- remove_pc_names in L2. apply in_map_iff in L2.
+  destruct L2 as [ti [T1 T2]]. fold tis' in T2.
+  destruct (Tti ti T2) as (_ & [tp [P1 P2]] & _ & _ & V5).
+  assert (Hk : In (norm_key (tp_key tp)) (ti_keys ti)) by (apply V5; exists tp; auto).
+  assert (Hst : In (mkLs (ti_name ti) (norm_key (tp_key tp)) (ti_fields ti)) steps)
+    by (apply Hin; exists ti, (norm_key (tp_key tp)); auto).
+  apply mapM_Forall2 in Hn. destruct (Forall2_In_l _ _ _ _ Hn Hst) as [[n2 m2] [Hin2 Hb2]].
+  apply step_body_spec in Hb2. destruct Hb2 as (_ & _ & _ & B4 & _). cbn [ls_table] in B4.
+  rewrite T1, Epc in B4.
+  pose proof (last_name_In _ _ _ _ Hin2 B4) as Hl.
+  destruct (last_name (lk_table l) named); [discriminate|congruence].
+Qed.
+
+(* the after-rule read by table name (the property's wording) holds when no table is called
+   PersonContact: then every step's sf_object is its table *)
+Theorem after_rule_by_table tpls deps decls ms pre name m post l prej namej mj postj :
+  (forall tp, In tp tpls -> has_space (tp_table tp) = false) ->
+  (forall tp, In tp tpls -> tp_table tp <> "PersonContact") ->
+  mapping_from_recipe tpls deps decls = Ok ms -> ms = pre ++ (name, m) :: post ->
+  In l (m_lookups m) ->
+  ms = prej ++ (namej, mj) :: postj -> m_table mj = lk_table l ->
+  (forall nm, In nm prej \/ In nm postj -> m_table (snd nm) <> lk_table l) ->
+  length prej < length pre \/ lk_after l = Some namej.
+Proof.
+  intros Hns Hnopc H Heq Hl Heqj Htab Hothers.
+  destruct (steps_complete _ _ _ _ Hns H) as (_ & Hkeys & Hsteps).
+  assert (Hsf : forall n0 m0, In (n0, m0) ms -> m_sf_object m0 = m_table m0 /\ m_table m0 <> "PersonContact").
+  { intros n0 m0 Hin. destruct (Hsteps n0 m0 Hin) as (_ & S2 & _).
+    assert (Hk : In (m_table m0, m_update_key m0) (map step_key ms))
+      by (apply in_map_iff; exists (n0, m0); split; [reflexivity|assumption]).
+    apply Hkeys in Hk. destruct Hk as [tp [P1 [_ [P3 _]]]].
+    assert (Hne : m_table m0 <> "PersonContact") by (rewrite <- P3; apply Hnopc; assumption).
+    split; [|assumption]. rewrite S2.
+    destruct (String.eqb (m_table m0) "PersonContact") eqn:E; [|reflexivity].
+    apply String.eqb_eq in E. contradiction. }
+  assert (Hj : In (namej, mj) ms) by (rewrite Heqj; apply in_or_app; right; left; reflexivity).
+  destruct (Hsf _ _ Hj) as [Hsfj Hnej].
+  eapply after_rule_single; try eassumption.
+  - rewrite <- Htab. assumption.
+  - congruence.
+  - intros [n0 m0] Hin. cbn [snd].
+    assert (Hin0 : In (n0, m0) ms).
+    { rewrite Heqj. apply in_or_app. destruct Hin as [Hin|Hin]; [left; assumption|right; right; assumption]. }
+    destruct (Hsf _ _ Hin0) as [Hsf0 _]. rewrite Hsf0. apply (Hothers (n0, m0)). assumption.
+Qed.
+
+(* ================================================================== parents first *)
+Lemma group_add_get t k v l :
+  assoc_get t (group_add k v l) =
+  if String.eqb t k then Some (match assoc_get k l with Some vs => vs ++ [v] | None => [v] end)
+  else assoc_get t l.
+Proof.
+  induction l as [|[k0 vs] r IH]; cbn [group_add assoc_get].
+  - destruct (String.eqb t k); reflexivity.
+  - destruct (String.eqb k k0) eqn:E; cbn [assoc_get].
+    + apply String.eqb_eq in E. subst k0. destruct (String.eqb t k); reflexivity.
+    + rewrite IH. destruct (String.eqb t k0) eqn:E2.
+      * apply String.eqb_eq in E2. subst k0. destruct (String.eqb t k) eqn:E3; [|reflexivity].
+        apply String.eqb_eq in E3. subst. rewrite String.eqb_refl in E. discriminate.
+      * reflexivity.
+Qed.
+
+Lemma inferred_of_tg ds t :
+  tg_of (inferred_of ds) t = map d_to (filter (fun d => String.eqb (d_from d) t) ds).
+Proof.
+  unfold inferred_of.
+  assert (H : forall acc, tg_of (fold_left (fun a d => group_add (d_from d) (d_to d) a) ds acc) t =
+                          tg_of acc t ++ map d_to (filter (fun d => String.eqb (d_from d) t) ds)).
+  { induction ds as [|d r IH]; intros acc; cbn [fold_left filter map]; [rewrite app_nil_r; reflexivity|].
+    rewrite IH. unfold tg_of at 1. rewrite group_add_get. rewrite (String.eqb_sym t (d_from d)).
+    destruct (String.eqb (d_from d) t) eqn:E.
+    - apply String.eqb_eq in E. subst t. unfold tg_of. cbn [map].
+      destruct (assoc_get (d_from d) acc); [rewrite <- app_assoc|]; reflexivity.
+    - reflexivity. }
+  rewrite H. reflexivity.
+Qed.
+
+Lemma remove_pc_deps_tg inf t x : In x (tg_of (remove_pc_deps inf) t) -> In x (tg_of inf t).
+Proof.
+  unfold tg_of, remove_pc_deps. induction inf as [|[k vs] r IH]; cbn [map assoc_get fst snd]; [auto|].
+  destruct (String.eqb k "Account") eqn:Ea; cbn [assoc_get fst snd]; destruct (String.eqb t k); auto.
+  intros H. apply filter_In in H. tauto.
+Qed.
+
+Lemma remove_pc_deps_tg_keep inf t x :
+  In x (tg_of inf t) -> ~ (t = "Account" /\ lower x = "personcontact") ->
+  In x (tg_of (remove_pc_deps inf) t).
+Proof.
+  unfold tg_of, remove_pc_deps. induction inf as [|[k vs] r IH]; cbn [map assoc_get fst snd]; [auto|].
+  intros H Hn.
+  destruct (String.eqb k "Account") eqn:Ea; cbn [assoc_get fst snd]; destruct (String.eqb t k) eqn:Et; auto.
+  apply filter_In. split; [assumption|]. apply negb_true_iff.
+  destruct (String.eqb (lower x) "personcontact") eqn:El; [|reflexivity].
+  exfalso. apply Hn. apply String.eqb_eq in Ea, Et, El. subst. auto.
+Qed.
+
+Definition key_le (a b : nat * lstep) : Prop := fst a <= fst b.
+
+Lemma insert_by_Forall (P : nat * lstep -> Prop) k s l :
+  P (k, s) -> Forall P l -> Forall P (insert_by k s l).
+Proof.
+  intros Hp H. induction H as [|[k' s'] r Hx Hr IH]; cbn [insert_by]; [constructor; [assumption|constructor]|].
+  destruct (Nat.leb k k'); constructor; auto.
+Qed.
+
+Lemma insert_by_sorted k s l : StronglySorted key_le l -> StronglySorted key_le (insert_by k s l).
+Proof.
+  intros H. induction H as [|[k' s'] r Hr IH Hall]; cbn [insert_by]; [constructor; constructor|].
+  destruct (Nat.leb k k') eqn:E.
+  - apply Nat.leb_le in E. constructor; [constructor; assumption|].
+    constructor; [unfold key_le; cbn [fst]; assumption|].
+    eapply Forall_impl; [|exact Hall]. intros [k2 s2]. unfold key_le. cbn [fst]. lia.
+  - apply Nat.leb_gt in E. constructor; [assumption|].
+    apply insert_by_Forall; [unfold key_le; cbn [fst]; lia|assumption].
+Qed.
+
+Lemma sort_keyed_sorted l : StronglySorted key_le (sort_keyed l).
+Proof.
+  unfold sort_keyed. induction l as [|[k s] r IH]; cbn [fold_right fst snd]; [constructor|].
+  apply insert_by_sorted. assumption.
+Qed.
+
+Lemma sorted_app_le l1 : forall x l2 y,
+  StronglySorted key_le (l1 ++ x :: l2) -> In y l2 -> key_le x y.
+Proof.
+  induction l1 as [|a r IH]; intros x l2 y H Hy; cbn [app] in H; inversion H as [|? ? Hs Hall]; subst.
+  - rewrite Forall_forall in Hall. apply Hall. assumption.
+  - eapply IH; eassumption.
+Qed.
+
+Lemma keyed_keys order l l' :
+  Forall2 (fun x y => key_step order x = Ok y) l l' ->
+  forall ks, In ks l' -> index_of (ls_table (snd ks)) order = Some (fst ks).
+Proof.
+  intros H. induction H as [|x y r r' Hxy Hr IH]; intros ks Hks; [destruct Hks|].
+  destruct Hks as [Hks|Hks]; [|auto]. subst ks. unfold key_step in Hxy.
+  destruct (index_of (ls_table x) order) eqn:E; [|discriminate]. injection Hxy as <-. cbn [fst snd]. assumption.
+Qed.
+
+(* steps are ordered by the first index of their table in the table order *)
+Lemma load_steps_sorted tis order steps spre s spost sj :
+  load_steps tis order = Ok steps -> steps = spre ++ s :: spost -> In sj spost ->
+  exists i j, index_of (ls_table s) order = Some i /\ index_of (ls_table sj) order = Some j /\ i <= j.
+Proof.
+  unfold load_steps. intros H Heq Hj.
+  destruct (mapM (key_step order) (dedupe_steps (raw_steps tis))) as [keyed|e] eqn:E;
+    cbn [bind] in H; [|discriminate].
+  injection H as Hs. rewrite Heq in Hs. apply mapM_Forall2 in E.
+  apply map_eq_app in Hs. destruct Hs as (kpre & krest & Hk & Hp & Hr).
+  apply map_eq_cons in Hr. destruct Hr as (ks & kpost & Hr1 & Hr2 & Hr3). subst krest.
+  rewrite <- Hr3 in Hj. apply in_map_iff in Hj. destruct Hj as [ksj [Hj1 Hj2]].
+  pose proof (sort_keyed_sorted keyed) as Hsorted. rewrite Hk in Hsorted.
+  pose proof (sorted_app_le _ _ _ _ Hsorted Hj2) as Hle.
+  assert (Hin : forall z, In z (sort_keyed keyed) -> In z keyed).
+  { intros z. apply Permutation_in. apply sort_keyed_perm. }
+  assert (H1 : In ks keyed) by (apply Hin; rewrite Hk; apply in_or_app; right; left; reflexivity).
+  assert (H2 : In ksj keyed) by (apply Hin; rewrite Hk; apply in_or_app; right; right; assumption).
+  pose proof (keyed_keys _ _ _ E _ H1) as K1. pose proof (keyed_keys _ _ _ E _ H2) as K2.
+  rewrite Hr2 in K1. rewrite Hj1 in K2. exists (fst ks), (fst ksj). auto.
+Qed.
+
+Theorem parents_first tpls deps ms (rank : string -> nat) pre name m post l nj mj :
+  (forall tp, In tp tpls -> has_space (tp_table tp) = false) ->
+  (forall d, In d deps -> In (d_from d) (visible_tables tpls) -> d_to d <> d_from d ->
+             In (d_to d) (visible_tables tpls) \/ d_to d = "PersonContact" ->
+             In (d_to d) (visible_tables tpls) /\ rank (d_to d) < rank (d_from d)) ->
+  mapping_from_recipe tpls deps [] = Ok ms -> ms = pre ++ (name, m) :: post ->
+  In l (m_lookups m) -> lk_table l <> m_table m ->
+  ~ (m_table m = "Account" /\ lower (lk_table l) = "personcontact") ->
+  In (nj, mj) ms -> m_table mj = lk_table l ->
+  In (nj, mj) pre.
+Proof.
+  intros Hns Hg H Heq Hl Hne Hnpc Hj Htj.
+  destruct (pipeline_rel _ _ _ Hns _ H) as (order & steps & Hsort & Hs & Hrel).
+  set (loadable := loadable_deps (visible_tables tpls) deps) in *.
+  set (names := visible_tables tpls) in *.
+  rewrite Heq in Hrel. apply Forall2_app_inv_r in Hrel.
+  destruct Hrel as (spre & srest & Hpre & Hrest & Hsteps).
+  inversion Hrest as [|s nm spost post' Rs Hpost]; subst.
+  apply in_app_or in Hj. destruct Hj as [Hj|[Hj|Hj]]; [assumption| |].
+  { inversion Hj; subst. congruence. }
+  exfalso.
+  destruct (Forall2_In_r _ _ _ _ Hpost Hj) as [sj [Hsj Rj]].
+  destruct (load_steps_sorted _ _ _ _ _ _ _ Hs eq_refl Hsj) as (i & j & I1 & I2 & I3).
+  unfold step_rel in Rs, Rj. cbn [fst snd] in Rs, Rj.
+  destruct Rs as (_ & Rs2 & _ & _ & Rs5 & _). destruct Rj as (_ & Rj2 & _).
+  (* the table of the step is visible *)
+  destruct (load_steps_spec _ _ _ Hs) as [_ Hin].
+  assert (Hsin : In s (spre ++ s :: spost)) by (apply in_or_app; right; left; reflexivity).
+  apply Hin in Hsin. destruct Hsin as [ti [k [A1 [A2 A3]]]].
+  assert (Htn : In (ls_table s) names).
+  { subst s. cbn [ls_table]. unfold names, visible_tables. rewrite <- remove_pc_names.
+    apply in_map. assumption. }
+  (* the lookup is an edge of the sorted graph *)
+  destruct (same_lookups_In _ _ _ Rs5 Hl) as [l0 [L1 [L2 L3]]].
+  apply lookups_of_In in L1. destruct L1 as [_ [L4 _]]. apply ref_target_Some in L4.
+  assert (Hedge : In (lk_table l) (merged_tg (remove_pc_deps (inferred_of loadable)) (declared_of [])
+                                             (ls_table s))).
+  { unfold merged_tg, declared_of. cbn [filter map assoc_get].
+    apply remove_pc_deps_tg_keep; [|rewrite <- Rs2; assumption].
+    rewrite inferred_of_tg. apply in_map_iff. exists (mkDep (ls_table s) (lk_table l0) (lk_field l0)).
+    cbn [d_to]. split; [congruence|]. apply filter_In. split; [assumption|]. cbn [d_from].
+    apply String.eqb_refl. }
+  assert (Hnd : NoDup names).
+  { unfold names, visible_tables. rewrite <- remove_pc_names. apply (infer_tables_spec tpls). }
+  destruct (sort_sound (remove_pc_deps (inferred_of loadable)) (declared_of []) names rank order Hnd)
+    as [_ Hbefore]; [|assumption|].
+  { intros t x Ht Hx Hxt. unfold merged_tg, declared_of in Hx. cbn [filter map assoc_get] in Hx.
+    apply remove_pc_deps_tg in Hx. rewrite inferred_of_tg in Hx. apply in_map_iff in Hx.
+    destruct Hx as [d [D1 D2]]. apply filter_In in D2. destruct D2 as [D2 D3].
+    apply String.eqb_eq in D3. apply (loadable_In tpls deps) in D2. destruct D2 as [D2 D4].
+    subst x t. apply Hg; assumption. }
+  destruct (Hbefore (ls_table s) (lk_table l) Htn Hedge) as (i' & j' & B1 & B2 & B3).
+  { rewrite <- Rs2. assumption. }
+  rewrite <- Rj2, Htj in I2. rewrite I2 in B1. rewrite I1 in B2. inversion B1; inversion B2; subst. lia.
+Qed.
+
+(* ================================================================== the mapping depends on the SET of dependencies *)
+(* every (table, field) pair has references to one table only *)
+Definition functional (ds : list dep) : Prop :=
+  forall a b, In a ds -> In b ds -> d_from a = d_from b -> d_field a = d_field b -> d_to a = d_to b.
+
+Lemma ref_target_functional ds t f to :
+  functional ds -> (ref_target ds t f = Some to <-> In (mkDep t to f) ds).
+Proof.
+  intros Hf. split; [apply ref_target_Some|]. intros Hin.
+  destruct (ref_target ds t f) as [to'|] eqn:E.
+  - apply ref_target_Some in E. f_equal. apply (Hf _ _ E Hin); reflexivity.
+  - exfalso. apply (proj1 (ref_target_None ds t f) E _ Hin). cbn. auto.
+Qed.
+
+Lemma ref_target_set_eq ds1 ds2 :
+  functional ds1 -> (forall d, In d ds1 <-> In d ds2) ->
+  forall t f, ref_target ds1 t f = ref_target ds2 t f.
+Proof.
+  intros Hf Hset t f.
+  assert (Hf2 : functional ds2).
+  { intros a b Ha Hb. apply Hf; apply Hset; assumption. }
+  destruct (ref_target ds1 t f) as [to|] eqn:E1.
+  - apply (ref_target_functional _ _ _ _ Hf) in E1. apply Hset in E1.
+    apply (ref_target_functional _ _ _ _ Hf2) in E1. congruence.
+  - destruct (ref_target ds2 t f) as [to|] eqn:E2; [|reflexivity].
+    apply (ref_target_functional _ _ _ _ Hf2) in E2. apply Hset in E2.
+    apply (ref_target_functional _ _ _ _ Hf) in E2. congruence.
+Qed.
+
+Lemma forallb_same_elements {A} (p : A -> bool) l1 l2 :
+  (forall x, In x l1 <-> In x l2) -> forallb p l1 = forallb p l2.
+Proof.
+  intros H. apply eq_true_iff_eq. rewrite !forallb_forall. split; intros Hp x Hx; apply Hp; apply H; assumption.
+Qed.
+
+Lemma sort_loop_ext tg1 tg2 stuck :
+  (forall t x, In x (tg1 t) <-> In x (tg2 t)) ->
+  forall fuel tables sorted,
+    sort_loop tg1 stuck fuel tables sorted = sort_loop tg2 stuck fuel tables sorted.
+Proof.
+  intros Htg. induction fuel as [|fuel IH]; intros tables sorted; destruct tables as [|t0 r0]; try reflexivity.
+  cbn [sort_loop].
+  assert (Hfree : forall s t, is_free tg1 s t = is_free tg2 s t).
+  { intros s t. unfold is_free. apply forallb_same_elements. apply Htg. }
+  rewrite (filter_ext _ _ (Hfree sorted)).
+  destruct (Nat.eqb _ _); [|apply IH].
+  destruct (stuck _); cbn [bind]; [apply IH|reflexivity].
+Qed.
+
+Lemma inferred_of_nonempty ds : nonempty (inferred_of ds) = nonempty ds.
+Proof.
+  unfold inferred_of. destruct ds as [|d r]; [reflexivity|]. cbn [fold_left nonempty group_add].
+  assert (H : forall (l : list dep) acc, nonempty acc = true ->
+            nonempty (fold_left (fun a d => group_add (d_from d) (d_to d) a) l acc) = true).
+  { induction l as [|x l IH]; intros acc Ha; cbn [fold_left]; [assumption|]. apply IH.
+    destruct acc as [|[k vs] acc]; [discriminate|]. cbn [group_add].
+    destruct (String.eqb (d_from x) k); reflexivity. }
+  apply H. reflexivity.
+Qed.
+
+Lemma remove_pc_deps_nonempty inf : nonempty (remove_pc_deps inf) = nonempty inf.
+Proof. destruct inf; reflexivity. Qed.
+
+Lemma remove_pc_deps_tg_eq inf t :
+  tg_of (remove_pc_deps inf) t =
+  if String.eqb t "Account"
+  then filter (fun x => negb (String.eqb (lower x) "personcontact")) (tg_of inf t)
+  else tg_of inf t.
+Proof.
+  unfold tg_of, remove_pc_deps. induction inf as [|[k vs] r IH]; cbn [map assoc_get fst snd].
+  - destruct (String.eqb t "Account"); reflexivity.
+  - destruct (String.eqb k "Account") eqn:Ea; cbn [assoc_get fst snd]; destruct (String.eqb t k) eqn:Et;
+      try assumption.
+    + apply String.eqb_eq in Ea, Et. subst. rewrite String.eqb_refl. reflexivity.
+    + apply String.eqb_eq in Et. subst. rewrite Ea. reflexivity.
+Qed.
+
+Lemma sorted_tg_In ld t x :
+  In x (tg_of (remove_pc_deps (inferred_of ld)) t) <->
+  (exists d, In d ld /\ d_from d = t /\ d_to d = x) /\ ~ (t = "Account" /\ lower x = "personcontact").
+Proof.
+  assert (Hinf : In x (tg_of (inferred_of ld) t) <-> exists d, In d ld /\ d_from d = t /\ d_to d = x).
+  { rewrite inferred_of_tg, in_map_iff. split.
+    - intros [d [D1 D2]]. apply filter_In in D2. destruct D2 as [D2 D3]. apply String.eqb_eq in D3. eauto.
+    - intros [d [D1 [D2 D3]]]. exists d. split; [assumption|]. apply filter_In. split; [assumption|].
+      apply String.eqb_eq. assumption. }
+  rewrite remove_pc_deps_tg_eq. destruct (String.eqb t "Account") eqn:Ea.
+  - apply String.eqb_eq in Ea. rewrite filter_In, Hinf, negb_true_iff. split.
+    + intros [H1 H2]. split; [assumption|]. intros [_ Hl]. rewrite Hl in H2. cbn in H2. discriminate.
+    + intros [H1 H2]. split; [assumption|].
+      destruct (String.eqb (lower x) "personcontact") eqn:El; [|reflexivity].
+      apply String.eqb_eq in El. exfalso. apply H2. auto.
+  - rewrite Hinf. split; [|tauto]. intros H. split; [assumption|]. intros [Ht _]. subst t. cbn in Ea. discriminate.
+Qed.
+
+Lemma sort_dependencies_set ld1 ld2 declared names :
+  (forall d, In d ld1 <-> In d ld2) ->
+  sort_dependencies (remove_pc_deps (inferred_of ld1)) declared names =
+  sort_dependencies (remove_pc_deps (inferred_of ld2)) declared names.
+Proof.
+  intros Hset. unfold sort_dependencies.
+  rewrite !remove_pc_deps_nonempty, !inferred_of_nonempty.
+  assert (Hne : nonempty ld1 = nonempty ld2).
+  { destruct ld1 as [|a r], ld2 as [|b s]; try reflexivity.
+    - exfalso. apply (Hset b). left; reflexivity.
+    - exfalso. apply (Hset a). left; reflexivity. }
+  rewrite Hne. apply sort_loop_ext. intros t x. unfold merged_tg.
+  destruct (assoc_get t declared); [tauto|]. rewrite !sorted_tg_In.
+  split; intros [[d [D1 D2]] Hn]; (split; [exists d; split; [apply Hset; assumption|assumption]|assumption]).
+Qed.
+
+Lemma step_body_ext steps ld1 ld2 dmap s :
+  (forall t f, ref_target ld1 t f = ref_target ld2 t f) ->
+  step_body steps ld1 dmap s = step_body steps ld2 dmap s.
+Proof.
+  intros H. unfold step_body. destruct (find_rt (ls_fields s)) as [rt|e]; cbn [bind]; [|reflexivity].
+  assert (E1 : filter (fun f => negb (is_some (ref_target ld1 (ls_table s) f))
+                                && negb (option_eqb String.eqb (Some f) rt))%bool (ls_fields s) =
+               filter (fun f => negb (is_some (ref_target ld2 (ls_table s) f))
+                                && negb (option_eqb String.eqb (Some f) rt))%bool (ls_fields s)).
+  { apply filter_ext. intros f. rewrite H. reflexivity. }
+  assert (E2 : flat_map (fun f => match ref_target ld1 (ls_table s) f with
+                                  | Some to => [mkLk f to None] | None => [] end) (ls_fields s) =
+               flat_map (fun f => match ref_target ld2 (ls_table s) f with
+                                  | Some to => [mkLk f to None] | None => [] end) (ls_fields s)).
+  { apply flat_map_ext. intros f. rewrite H. reflexivity. }
+  rewrite E1, E2. reflexivity.
+Qed.
+
+Lemma mapM_ext {A B} (f g : A -> result B) l : (forall x, f x = g x) -> mapM f l = mapM g l.
+Proof. intros H. induction l as [|x r IH]; cbn [mapM]; [reflexivity|]. rewrite H, IH. reflexivity. Qed.
+
+(* same templates, same declarations, same SET of recorded dependencies (each field referring to
+   one table) => same mapping, whatever the order in which the references were observed *)
+Theorem mapping_set_independent tpls deps1 deps2 decls :
+  functional deps1 -> (forall d, In d deps1 <-> In d deps2) ->
+  mapping_from_recipe tpls deps1 decls = mapping_from_recipe tpls deps2 decls.
+Proof.
+  intros Hf Hset. unfold mapping_from_recipe.
+  set (names := map ti_name (infer_tables tpls)).
+  assert (Hl : forall d, In d (loadable_deps names deps1) <-> In d (loadable_deps names deps2)).
+  { intros d. unfold loadable_deps. rewrite !filter_In, Hset. tauto. }
+  assert (Hfl : functional (loadable_deps names deps1)).
+  { intros a b Ha Hb. unfold loadable_deps in Ha, Hb. apply filter_In in Ha, Hb. apply Hf; tauto. }
+  rewrite (sort_dependencies_set _ _ _ _ Hl).
+  destruct (sort_dependencies _ _ names) as [order|e]; cbn [bind]; [|reflexivity].
+  destruct (load_steps _ order) as [steps|e]; cbn [bind]; [|reflexivity].
+  unfold mappings_from_load_steps.
+  rewrite (mapM_ext _ (step_body steps (loadable_deps names deps2) (map (fun d => (dc_object d, d)) decls))).
+  - reflexivity.
+  - intros s. apply step_body_ext. apply ref_target_set_eq; assumption.
 Qed.
